@@ -167,7 +167,7 @@ CHECKS["C11"] = {
 CHECKS["C12"] = {
     "gen_ties": ["Builtins", "Vm", "Parser", "Conv", "Lexer"],
     "level": "other",
-    "lean_targets": ["Yae.Props.C12", "Yae.Props.C12b"],
+    "lean_targets": ["Yae.Props.C12", "Yae.Props.C12b", "Yae.Props.Api"],
     "streams": [
         {"name": "api", "quick_n": 1500, "thorough_n": 20000, "oracles": ["api-panic", "api-slow", "api-superpoly*", "process-crash"], "timeout": 3000},
         {"name": "history", "quick_n": 300, "thorough_n": 3000, "oracles_only": True, "oracles": ["history-panic", "process-crash"]},
@@ -175,7 +175,7 @@ CHECKS["C12"] = {
         {"name": "debug", "quick_n": 800, "thorough_n": 8000, "oracles_only": True, "oracles": ["debug-panic", "process-crash"]},
         EVAL(2500, 30000, kinds=["pipeline"], oracles=["api-panic", "process-crash"]),
     ],
-    "explanation": "Partial by nature. Proved over the model: every stage is a total function returning a value or an error and its fuel never runs out — lexer (C12.lex_no_fuel, lex_steps: at most one round per input character, lex_fuel_mono, lex_rule_attempts), parser (parse_no_fuel_partial, parseWith_no_fuel: 4*tokens+1 suffices), unifier (C17.unify_fuel_sufficient), checker (C05.never_fuel), evaluator (C02.progress: depth suffices), VM (C11.verify_sound, compiled_runs_safely: at most the code size). Not expressible in a model: wall-clock budgets, goroutine stack exhaustion, process death. The api stream is the failing-input search for those: random bytes/runes, token-level mutations of valid programs, bracket nests to depth 2000, operator chains, 14 kinds of host values through Eval / Compile+Callable / Debug with a per-input time budget, and growth families timed at increasing depth. Containment (third session): the inventory of panic guards of the API layer (which functions of facade.go, conv, ext/sql.go install a deferred recover, and through which helper) is regenerated from the source on every run (Gen.panicGuards) and tied (C12.guards_tie); over a hand-modelled call structure of Eval / Debug / Compile / Callable, every internal stage runs under one of those guards or is one of three stages that are total functions in the model (C12.contained_partial, helpers_recover). parse_fuel_witness: the one table for which the parser does not terminate (a prefix operator whose kind is the end-of-file marker), kernel-evaluated. The composed pipeline (Model/Facade: lex, parse, desugar, check, environment check, evaluate - tied to Compile + Callable FROM THE SOURCE TEXT by the pipeline cases of the eval stream): C12.compile_total - for every well-formed operator table and signature environment and EVERY source text, compilation ends in a tree, the syntax error or a type error, never in an outcome that stands for a run-time fault or an endless loop; run_total - an accepted run-time environment with well-formed values gives a value of the inferred type or a documented failure, and a refused one evaluates nothing. Work bounds (cost-instrumented copies of the parser and the desugarer, proved equal to the model after erasing the counter): parse_work_linear - at most 2n+1 parser calls on n tokens, on success and on failure, at every fuel; parse_nodes - the tree has at most n nodes; desugar_work_linear; compile_work_partial - the chain lexer rounds / rule attempts / #tokens <= #runes / parser calls / tree nodes in terms of the source length.",
+    "explanation": "Partial by nature. Proved over the model: every stage is a total function returning a value or an error and its fuel never runs out — lexer (C12.lex_no_fuel, lex_steps: at most one round per input character, lex_fuel_mono, lex_rule_attempts), parser (parse_no_fuel_partial, parseWith_no_fuel: 4*tokens+1 suffices), unifier (C17.unify_fuel_sufficient), checker (C05.never_fuel), evaluator (C02.progress: depth suffices), VM (C11.verify_sound, compiled_runs_safely: at most the code size). Not expressible in a model: wall-clock budgets, goroutine stack exhaustion, process death. The api stream is the failing-input search for those: random bytes/runes, token-level mutations of valid programs, bracket nests to depth 2000, operator chains, 14 kinds of host values through Eval / Compile+Callable / Debug with a per-input time budget, and growth families timed at increasing depth. Containment (third session): the inventory of panic guards of the API layer (which functions of facade.go, conv, ext/sql.go install a deferred recover, and through which helper) is regenerated from the source on every run (Gen.panicGuards) and tied (C12.guards_tie); over a hand-modelled call structure of Eval / Debug / Compile / Callable, every internal stage runs under one of those guards or is one of three stages that are total functions in the model (C12.contained_partial, helpers_recover). parse_fuel_witness: the one table for which the parser does not terminate (a prefix operator whose kind is the end-of-file marker), kernel-evaluated. The composed pipeline (Model/Facade: lex, parse, desugar, check, environment check, evaluate - tied to Compile + Callable FROM THE SOURCE TEXT by the pipeline cases of the eval stream): C12.compile_total - for every well-formed operator table and signature environment and EVERY source text, compilation ends in a tree, the syntax error or a type error, never in an outcome that stands for a run-time fault or an endless loop; run_total - an accepted run-time environment with well-formed values gives a value of the inferred type or a documented failure, and a refused one evaluates nothing. Work bounds (cost-instrumented copies of the parser and the desugarer, proved equal to the model after erasing the counter): parse_work_linear - at most 2n+1 parser calls on n tokens, on success and on failure, at every fuel; parse_nodes - the tree has at most n nodes; desugar_work_linear; compile_work_partial - the chain lexer rounds / rule attempts / #tokens <= #runes / parser calls / tree nodes in terms of the source length. Over the engine object, for every history of API calls: every compilation yields a Callable or a REPORTED error (ApiProps.api_compile_reports) and every invocation ends in one of the four outcomes of api_sound - never fuel, never an unexplained stuck state.",
     "assumptions": ["testing, not proof, for promptness and panic containment of the Go facade"],
 }
 
